@@ -3134,6 +3134,12 @@ psf_open_file (SF_PRIVATE *psf, SF_INFO *sfinfo)
 			goto error_exit ;
 			} ;
 
+		/*
+		** The caller only has to fill in samplerate, channels and format. A new
+		** file holds no frames, whatever was left in the frames field.
+		*/
+		psf->sf.frames = 0 ;
+
 		/* Header writers divide by the sample rate. */
 		if (psf->sf.samplerate < 1)
 		{	error = SFE_BAD_SF_INFO ;
